@@ -103,6 +103,8 @@ def handle : Handler
   | "alias_mul_2exp", args => runB mul_2exp args
   | "alias_tdiv_q_2exp", args => runB tdiv_q_2exp args
   | "alias_tdiv_r_2exp", args => runB tdiv_r_2exp args
+  | "alias_cdiv_r_2exp", args => runB cdiv_r_2exp args
+  | "alias_fdiv_r_2exp", args => runB fdiv_r_2exp args
   | "alias_cdiv_q_2exp", args => runB cdiv_q_2exp args
   | "alias_fdiv_q_2exp", args => runB fdiv_q_2exp args
   | _, _ => none
